@@ -322,17 +322,22 @@ writer machine is `Backed`).  `_partial` with respect to `C03.teardown_releases_
 liveness claim: not proved is that steps of *other* threads on the same writer (late answers,
 `closeR` of an unlinked reader, …) never increase `μ` – only (c), that no new response becomes
 owed – and fairness is an assumption.  It speaks of the requester of the torn-down writer
-itself; for a requester upstream of a node see `C03.teardown_releases_upstream_partial`. -/
+itself; for a requester upstream of a node see `C03.teardown_releases_upstream_partial`.
+Since `Reader.Receive` is modelled with its window (C01: `pop` / `deliver`), the statement is
+about a torn-down writer none of whose readers has an answer in flight (`hnf`): an answer that
+was popped before the teardown and not yet delivered would be released by the additional fair
+step `deliver`, which the measure `μ` and `IsFair` do not count yet. -/
 theorem C03.teardown_releases_partial (t : Topo) (h : List Teardown.Step) (hs : RunNoSteal h) (w : WId)
-    (ht : TornDown ((Teardown.run .discard t {} h).comp w)) :
+    (ht : TornDown ((Teardown.run .discard t {} h).comp w))
+    (hnf : ∀ r, ((Teardown.run .discard t {} h).comp w).w.flight r = []) :
     C03.Releases ((Teardown.run .discard t {} h).comp w) := by
   have hi := cinv_reach t h hs w
   have hb : Backed ((Teardown.run .discard t {} h).comp w) :=
     backed_run .discard t {} h (fun _ => backed_init) w
-  refine ⟨enabled _ hi hb ht, fun ho hen => (recv_decreases _ hi ho hen).1,
+  refine ⟨enabled _ hi hb ht hnf, fun ho hen => (recv_decreases _ hi ho hen).1,
     fun hc he => (exit_decreases _ hc he).1,
     fun r hr hnd hd => (drop_decreases _ hi hb r hr hnd hd).1, torn_no_accept _ ht, ?_⟩
-  obtain ⟨cs, f, l, o, i⟩ := release (mu ((Teardown.run .discard t {} h).comp w)) _ (Nat.le_refl _) hi hb ht
+  obtain ⟨cs, f, l, o, i⟩ := release (mu ((Teardown.run .discard t {} h).comp w)) _ (Nat.le_refl _) hi hb ht hnf
   exact ⟨cs, f, l, o, got_shape _ i⟩
 
 /-- Non-vacuity: a node between a source writer (0) and a sink; two requests in flight; the
@@ -607,4 +612,25 @@ theorem C03.late_listener_pinned_blocked :
     ((Teardown.run .discard (t false) {} h).comp 0).w.done = false ∧
     (Teardown.run .discard (t false) {} h).reads 0 0 = [(7, none)] ∧
     ((Teardown.run .discard (t true) {} h).comp 0).got = [.got Resp.dropped] := by
+  decide
+
+/-! ## A closed in-port re-opened inside `OutPort.Open` -/
+
+/-- The process's first `Open` of a source out-port took the snapshot of its linked in-ports, the
+node's in-port was closed, the `Open` went on: the source writer (0) ends up linked to a fresh
+reader (reader 1) of the closed port.  With `fix: a closed in-port drops what is still written to
+it` the port itself listens on that reader (sink 9) and answers `dropped`: the request is
+accepted, answered at once, and the requester receives `dropped`.  Before the fix nobody
+listened: the same history without the port's answer leaves the requester owed a response with no
+step of the system enabled for it but an answer that never comes (second conjunct: `pend`
+non-empty, nothing buffered, the writer open). -/
+theorem C03.closed_port_answers_dropped :
+    let t : Topo := { listener := fun _ r => if r = 1 then .sink 9 else .node 1 }
+    let h : List Teardown.Step := [.down (.readerClose 0 0), .prim 0 (.w (.link 1)), .prim 0 (.w (.write 7))]
+    ((Teardown.run .discard t {} (h ++ [.sinkAnswer 9 Ans.dropped, .prim 0 .recv])).comp 0).got = [.got Resp.dropped] ∧
+    (((Teardown.run .discard t {} h).comp 0).outstanding = 1 ∧
+     (((Teardown.run .discard t {} h).comp 0).w.pend 1).length = 1 ∧
+     ((Teardown.run .discard t {} h).comp 0).p.buf = [] ∧
+     ((Teardown.run .discard t {} h).comp 0).w.done = false ∧
+     (Teardown.run .discard t {} h).queue 9 = [(0, 1)]) := by
   decide
